@@ -558,14 +558,28 @@ def check_respellings(ctx, rng, mz):
         head = f"$ORIGIN {RN.to_text(mz.origin)}\n$TTL 777\n@ IN SOA ns hostmaster 1 2 3 4 5\n@ IN NS ns\n"
         if rng.random() < 0.4 and RN.fits((b"host0000000", b"lab") + tuple(mz.origin)):
             head += f"$ORIGIN lab.{RN.to_text(mz.origin)}\n"  # a mid-file $ORIGIN strictly below the zone origin
-        t1 = head + gen + "\n"
-        t2 = head + "".join(f"{o} {ttl if ttl is not None else ''} IN {rt} {rd}\n" for o, ttl, rt, rd in exp)
+        if rng.random() < 0.5:
+            # a record with a TTL of its own just before: a line (or directive) without a TTL takes the $TTL default, not the last
+            # TTL that happened to be written
+            head += f"pre-{rng.randrange(100)} {rng.choice((60, 86400, 30))} IN A 10.9.9.9\n"
+        # the same record written twice with different TTLs, in either order: the set's TTL is the lower one
+        lo, hi = rng.choice(((100, 300), (1, 86400), (0, 5)))
+        dup1 = f"dup {hi} IN A 10.8.8.8\ndup {lo} IN A 10.8.8.8\n"
+        dup2 = f"dup {lo} IN A 10.8.8.8\ndup {hi} IN A 10.8.8.8\n"
+        t1 = head + dup1 + gen + "\n"
+        t2 = head + dup2 + "".join(f"{o} {ttl if ttl is not None else ''} IN {rt} {rd}\n" for o, ttl, rt, rd in exp)
         case = {"kind": "generate", "generate": gen, "expansion": t2[-1500:]}
         try:
             z1 = dns.zone.from_text(t1, origin=origin, relativize=relativize, zone_factory=factory)
             z2 = dns.zone.from_text(t2, origin=origin, relativize=relativize, zone_factory=factory)
-            if GZ.content_of_lib_zone(z1) != GZ.content_of_lib_zone(z2):
-                ctx.violation("generate-differs-from-expansion", f"{gen}: {diffc(GZ.content_of_lib_zone(z1), GZ.content_of_lib_zone(z2))}", case)
+            c1, c2 = GZ.content_of_lib_zone(z1), GZ.content_of_lib_zone(z2)
+            if c1 != c2:
+                only_dup = all(k[0] == b"dup" for k in set(c1) | set(c2) if c1.get(k) != c2.get(k))
+                ctx.violation("repeated-record-ttl-depends-on-line-order" if only_dup else "generate-differs-from-expansion", f"{gen}: {diffc(c1, c2)}", case)
+            else:
+                dk = [k for k in c1 if k[0] == b"dup"]
+                if dk and c1[dk[0]][(1, 0)][0] != lo:
+                    ctx.violation("repeated-record-ttl-not-the-minimum", f"TTLs {hi} and {lo}: loaded {c1[dk[0]][(1, 0)][0]}", case)
             ctx.seen(("generate", "{" in gen, gen.split()[-2]))
         except Exception as e:
             ctx.violation(f"generate-or-expansion-rejected:{type(e).__name__}", f"{gen}: {e!r}", case)
